@@ -189,6 +189,13 @@ orc_code_allocate_codemem (OrcCode *code, int size)
   int aligned_size =
       (MAX(1, size) + _orc_codemem_alignment) & (~_orc_codemem_alignment);
 
+  /* A request larger than a whole region can never be satisfied: refuse it
+   * here, without mapping (and keeping) a new region for every such request. */
+  if (aligned_size > SIZE) {
+    ORC_ERROR ("Code of %d bytes does not fit a code region", size);
+    return;
+  }
+
   orc_global_mutex_lock ();
   chunk = orc_code_region_get_free_chunk (aligned_size);
   if (!chunk) {
